@@ -43,11 +43,12 @@ const (
 	KSlice
 	KMap
 	KStruct
+	KRaw // a kind plenc does not support; Named selects the registered reflect.Type
 )
 
 var kindNames = [...]string{"bool", "int", "int8", "int16", "int32", "int64", "uint", "uint8", "uint16", "uint32", "uint64",
 	"float32", "float64", "string", "[]byte", "time.Time", "null.Int", "null.Bool", "null.Float", "null.String", "null.Time",
-	"*", "[]", "map", "struct"}
+	"*", "[]", "map", "struct", "raw"}
 
 func (k Kind) String() string { return kindNames[k] }
 
@@ -219,6 +220,8 @@ func (t *T) Reflect() reflect.Type {
 // Comparable reports whether the type can be a map key in Go.
 func (t *T) Comparable() bool {
 	switch t.K {
+	case KRaw:
+		return t.Named != "func()" && t.Named != "[]any"
 	case KBytes, KSlice, KMap:
 		return false
 	case KStruct:
